@@ -132,6 +132,18 @@ def fill(obj, B, v, route=None):
         elif how == 'setpos':
             for i, sv in enumerate(subs):
                 obj.setComponentByPosition(i, sv)
+        elif how in ('setpos-descending', 'setpos-shuffled', 'setitem-shuffled'):
+            # positions assigned out of order: the list has holes on the way, is dense at the end
+            idxs = list(range(len(subs)))
+            if how == 'setpos-descending':
+                idxs.reverse()
+            else:
+                route.rng.shuffle(idxs)
+            for i in idxs:
+                if how == 'setitem-shuffled':
+                    obj[i] = subs[i]
+                else:
+                    obj.setComponentByPosition(i, subs[i])
         else:
             for sv in subs:
                 obj.append(sv)
@@ -168,7 +180,7 @@ class Route(object):
         return r
 
     def list_route(self):
-        r = self.rng.choice(['append', 'extend', 'setpos'])
+        r = self.rng.choice(['append', 'extend', 'setpos', 'setpos-descending', 'setpos-shuffled', 'setitem-shuffled'])
         self.used.add('list-' + r)
         return r
 
